@@ -242,9 +242,40 @@ def report_mux(prop, tier, tags, res, cases, stats, t0, known, level, mc_cfgs):
     finish(prop, viol, kn)
 
 
+def c01_extra(tier, rng):
+    cases = duration_cases(rng, "dur")
+    # more than 4 GiB of media data (64-bit media data header), the small samples around it read back
+    H = 1 << 31
+    calls = [{"op": "add", "conf": full_conf("avc", 1000, rng)}, {"op": "add", "conf": full_conf("aac", 48000, rng)}]
+    for k, ln in enumerate([5, H - 8, 9, H - 8, 7]):
+        calls.append({"op": "write", "t": 1, "len": ln, "fill": 0x41 + k, "dur": big(1000), "cts": 0, "sync": k == 0, "valid": True})
+        calls.append({"op": "write", "t": 2, "len": 6, "fill": 0x61 + k, "dur": big(48000), "cts": 0, "sync": True, "valid": True})
+    cases.append({"id": "over4g", "seed": 3, "twice": False, "readback": "small",
+                  "cfg": {"major": s4("isom"), "minor": big(512), "brands": [s4("isom")], "timescale": big(1000)}, "pos": [], "calls": calls})
+    # rejected add_track calls between accepted ones: the accepted tracks are 1..n in the order added
+    bad1 = full_conf("hevc", 0, rng)                       # timescale 0
+    bad2 = full_conf("avc", 1000, rng)
+    bad2["sps"] = [0x67]                                   # parameter set shorter than its header
+    for pattern in (["ok", "bad1", "bad2", "ok"], ["bad2", "ok", "bad1", "ok", "ok"]):
+        calls, nt = [], 0
+        for pt in pattern:
+            if pt == "ok":
+                nt += 1
+                calls.append({"op": "add", "conf": full_conf(KINDS[nt % 5], 1000, rng)})
+            else:
+                calls.append({"op": "add", "conf": bad1 if pt == "bad1" else bad2, "valid": False})
+        for k in range(3):
+            for t in range(1, nt + 1):
+                calls.append({"op": "write", "t": t, "len": 3 + t + k, "fill": 17 * t + k, "dur": big(400), "cts": 0, "sync": k == 0, "valid": True})
+            calls.append({"op": "write", "t": nt + 1, "len": 2, "fill": 1, "dur": big(1), "cts": 0, "sync": True, "valid": False})
+        cases.append({"id": "addrej-%d" % len(pattern), "seed": len(pattern),
+                      "cfg": {"major": s4("isom"), "minor": big(512), "brands": [s4("isom")], "timescale": big(1000)}, "pos": [], "calls": calls})
+    return cases
+
+
 @check("C01")
 def c01(prop, tier, replay):
-    mux_family(prop, tier, replay, {"C01"}, extra_cases=duration_cases(random.Random(seed()), "dur"))
+    mux_family(prop, tier, replay, {"C01"}, extra_cases=c01_extra(tier, random.Random(seed())))
 
 
 def mdat_boundary_cases(tier, rng):
@@ -1006,6 +1037,18 @@ def c11(prop, tier, replay):
     for dm in ("mixA", "mixB", "mixC"):
         files += [{"file": c["file"], "kind": "spec-rendered fragmented " + dm} for c in mx
                   if c["delivery"] == "one" and c["durMode"] == dm and c["base"] == "moof" and not c["mdatFirst"] and c["nfrag"] >= 2][:1 if tier == "quick" else 4]
+    # movie header last and another table than the chunk offsets as the last box of the last track
+    st, sw = gen_mc("MC_Layout", "MC_Layout_plainswap2", wd, tier, coverage=False)      # one track, every pair of swaps
+    stats.append(st)
+    seen_last = set()
+    for c in sw:
+        tops = [o for o in c["ops"] if o["op"] == "swap" and o["path"] == []]
+        inner = [o for o in c["ops"] if o["op"] == "swap" and len(o["path"]) == 5]
+        if len(c["ops"]) == 2 and tops and inner:
+            key = json.dumps(inner[0], sort_keys=True)
+            if key not in seen_last and inner[0]["j"] == 7 and len(seen_last) < (8 if tier == "quick" else 40):      # ... moved to the last place
+                seen_last.add(key)
+                files.append({"file": c["file"], "kind": "spec-rendered, media data first, sample tables reordered", "ops": c["ops"]})
     st, mcs = gen_mc("MC_Meta", "MC_Meta_q", wd, tier, coverage=False)
     stats.append(st)
     full = [c for c in mcs if c["shape"] in ("mdir", "mdirqt") and c["title"] != "absent" and c["year"] == "text2008" and c["poster"] != "absent"][:2]
@@ -1345,7 +1388,7 @@ def robust_suite(tier):
     with ThreadPoolExecutor(max_workers=12) as ex:
         rs = list(ex.map(lambda j: run_robust_base(j[0], j[1], wd, j[2]), jobs))
     # amplification family: T tracks whose parameter-set records all reach into one shared region
-    amps = ["90,30,hevc", "90,30,avc", "30,60,hevc", "12,254,avc", "40,300,esds", "100,64,esds", "40,300,esds4", "20000,400000,fragwalk"] + ["80,200,tbl-" + t for t in ("stss", "stts", "ctts", "stsc", "stco", "co64", "stsz")] + (["90,200,hevc", "90,200,avc", "90,2000,esds", "60000,600000,fragwalk"] if tier == "thorough" else [])
+    amps = ["90,30,hevc", "90,30,avc", "30,60,hevc", "12,254,avc", "40,300,esds", "100,64,esds", "40,300,esds4", "20000,400000,fragwalk", "100,6000,tracksmoofs"] + ["80,200,tbl-" + t for t in ("stss", "stts", "ctts", "stsc", "stco", "co64", "stsz")] + (["90,200,hevc", "90,200,avc", "90,2000,esds", "60000,600000,fragwalk"] if tier == "thorough" else [])
     rs += [run_amplify(a, wd, p) for p in ("debug", "release") for a in amps]
     res = {"stats": stats, "bases": [{"kind": b["kind"], "len": len(b["file"]), "fields": len(b["fields"]), "plan": {k: v for k, v in b["plan"].items()}} for b in bases],
            "executions": sum(x["cases"] for x in rs), "events": sum(x["events"] for x in rs), "fails": [], "wall": time.time() - t0}
